@@ -2,10 +2,16 @@
    twice: ct_c.c over the C macros/functions, ct_cxx.cpp over the C++ classes.  */
 #ifndef CT_H
 #define CT_H
+#include <stddef.h>
 #ifdef __cplusplus
 extern "C" {
 #endif
 const char *ct_binding (void);
+/* allocator behind every container: provided by the engine (tracks block sizes, can shrink in place) */
+void *ctm_malloc (size_t n);
+void *ctm_calloc (size_t n, size_t m);
+void *ctm_realloc (void *p, size_t n);
+void ctm_free (void *p);
 void *ct_alloc_new (void);
 void ct_alloc_del (void *a);
 /* hash table over int keys 0..15; hashfn: 0 constant, 1 identity, 2 key mod 2, 3 key*7 */
